@@ -69,6 +69,7 @@ func runC24(c *eng.Ctx) {
 		c.Touch(c.NeedFunc("weed/filer", "EntryAttributeToPb"))
 		c.Touch(c.NeedFunc("weed/filer", "PbToEntryAttribute"))
 		w := map[string]string{} // pb field -> attr field
+		lossy := map[string]string{}
 		ast.Inspect(wfd, func(n ast.Node) bool {
 			cl, ok := n.(*ast.CompositeLit)
 			if !ok {
@@ -83,6 +84,9 @@ func runC24(c *eng.Ctx) {
 					continue
 				}
 				key := kv.Key.(*ast.Ident).Name
+				if op := maskingOp(kv.Value); op != "" {
+					lossy[key] = op
+				}
 				fs := selFieldsOn(kv.Value, "entry")
 				if len(fs) == 1 {
 					w[key] = fs[0]
@@ -101,6 +105,9 @@ func runC24(c *eng.Ctx) {
 			lf := selFieldsOn(as.Lhs[0], "t")
 			rf := selFieldsOn(as.Rhs[0], "attr")
 			if len(lf) == 1 && len(rf) == 1 {
+				if op := maskingOp(as.Rhs[0]); op != "" {
+					lossy[rf[0]] = op
+				}
 				if old, dup := r[rf[0]]; dup {
 					r[rf[0]] = old + "+" + lf[0]
 				} else {
@@ -126,6 +133,7 @@ func runC24(c *eng.Ctx) {
 		usedAttrW, usedAttrR := map[string]bool{}, map[string]bool{}
 		for _, pf := range pbFields {
 			c.Ob("CODEC-attr", "pb."+pf, w[pf] != "" && w[pf] == r[pf], wfd.Pos(), fmt.Sprintf("written from Attr.%s, read into Attr.%s", w[pf], r[pf]))
+			c.Ob("CODEC-attr", "pb."+pf+" unmasked", lossy[pf] == "", wfd.Pos(), "the attribute is stored and restored whole, no bits are masked or shifted away"+ifs(lossy[pf] != "", " (operator "+lossy[pf]+")"))
 			usedAttrW[w[pf]] = true
 			usedAttrR[r[pf]] = true
 		}
@@ -363,4 +371,19 @@ func pkgOfType(t types.Type) string {
 		return n.Obj().Pkg().Path()
 	}
 	return ""
+}
+
+// maskingOp returns the first bit-dropping operator (&, &^, >>, <<, %) applied inside e, or "".
+func maskingOp(e ast.Expr) string {
+	op := ""
+	ast.Inspect(e, func(n ast.Node) bool {
+		if b, ok := n.(*ast.BinaryExpr); ok && op == "" {
+			switch b.Op {
+			case token.AND, token.AND_NOT, token.SHR, token.SHL, token.REM:
+				op = b.Op.String()
+			}
+		}
+		return true
+	})
+	return op
 }
